@@ -1,29 +1,30 @@
 """Which units / harnesses decide which property (DESIGN §3)."""
 
+REAL = "unit info_update uses the F-real model: machine arithmetic treated as mathematical (admitted axioms reading each float operation as the exact real operation; NaN/inf/rounding not modelled); norms assumed nonnegative"
 OPAQUE = "float model F-opaque: every arithmetic operation and comparison on the generic float type is an uninterpreted symbol (a proved postcondition holds for every interpretation, in particular IEEE-754 incl. NaN); the one axiom is f_eq(0,0)"
 PRINT_OK = "print functions are assumed to return Ok (an I/O error on the print target makes solve panic at its .unwrap()) and to write self.iterations in the first column (info_print.rs is write!/format! code outside both verifiers)"
 TRAITS = "generic solve loop: the contracts on the core traits are assumed for arbitrary implementations; for the default implementation they are PROVED for DefaultInfo (check_termination, post_process, save/reset_prev_iterate, save_scalars, get/set_status) and DefaultSettings::core, assumed for the numeric methods of DefaultVariables / KKT system / residuals / solution (they only need to return and keep vector lengths)"
 
 PROPS = {
     "C01": {
-        "units": ["status", "postprocess"],
-        "scope": "verdict layer: Solved only when the documented test holds on the reported figures",
-        "assumptions": [OPAQUE],
+        "units": ["status", "postprocess", "info_update"],
+        "scope": "verdict layer: Solved only when the documented test holds on the reported figures; the figures are the documented functions of the residual norms (real arithmetic); the returned point is the un-scaled, un-presolved iterate the figures were computed on",
+        "assumptions": [OPAQUE, REAL],
         "trusted_base": ["prelude/float_opaque.rs (hand written)"],
         "not_covered": ["Residuals::update (gemv/symv sums)", "cone membership of the final iterate", "that the loop reaches Solved at all (C06)"],
     },
     "C02": {
-        "units": ["status", "postprocess"],
-        "scope": "verdict layer: *Infeasible only when the documented certificate test holds",
-        "assumptions": [OPAQUE],
+        "units": ["status", "postprocess", "info_update"],
+        "scope": "verdict layer: *Infeasible only when the documented certificate test holds; infeasibility residuals are the documented scale-free ratios; NaN objectives and kappa-normalisation exactly for infeasible statuses",
+        "assumptions": [OPAQUE, REAL],
         "trusted_base": ["prelude/float_opaque.rs (hand written)"],
         "not_covered": ["z in K*, s in K of the certificate", "user-space certificate beyond the unscale contract"],
     },
     "C03": {
-        "units": ["status", "solve", "postprocess"],
+        "units": ["status", "solve", "postprocess", "info_update"],
         "scope": "Almost* only from error/limit statuses under reduced tolerances; never inside the loop; status revisions only to Almost*",
-        "assumptions": [OPAQUE, TRAITS, PRINT_OK],
-        "trusted_base": ["prelude/float_opaque.rs", "prelude/vecmath_assumed.rs"],
+        "assumptions": [OPAQUE, REAL, TRAITS, PRINT_OK],
+        "trusted_base": ["prelude/float_opaque.rs", "prelude/vecmath_assumed.rs", "prelude/float_real_axioms.rs"],
         "not_covered": ["numerical equality of obj_val with an independent recomputation (rounding)", "chordal case"],
     },
     "C04": {
